@@ -412,6 +412,34 @@ def closure_state_writes(outer_node, inner_node):
                 containers[n.targets[0].id] = n
     inner_binds = {x.arg for x in ast.walk(inner_node) if isinstance(x, ast.arg)} | \
         {x.id for x in ast.walk(inner_node) if isinstance(x, ast.Name) and isinstance(x.ctx, ast.Store)}
+    # what the factory was *given* (its parameters: the decorator's arguments) is shared by all calls of the closure just as well; a local
+    # of the closure that may name such an object (`x = given` on some branch) stands for it
+    given = {a.arg for a in ast.walk(outer_node.args) if isinstance(a, ast.arg)} - {'self', 'cls'} if hasattr(outer_node, 'args') else set()
+    shared = (set(containers) | given) - inner_binds
+    alias = {}
+    def may_name(v):
+        if isinstance(v, ast.Name):
+            return [v.id]
+        if isinstance(v, ast.IfExp):
+            return may_name(v.body) + may_name(v.orelse)
+        if isinstance(v, ast.BoolOp):
+            return [x for y in v.values for x in may_name(y)]
+        return []
+    for n in ast.walk(inner_node):
+        if isinstance(n, ast.Assign) and len(n.targets) == 1 and isinstance(n.targets[0], ast.Name):
+            for nm in may_name(n.value):
+                if nm in shared:
+                    alias[n.targets[0].id] = nm
+    for n in ast.walk(inner_node):
+        if isinstance(n, ast.Call) and isinstance(n.func, ast.Attribute) and isinstance(n.func.value, ast.Name) and n.func.attr in MUTATORS and \
+                (n.func.value.id in alias or (n.func.value.id in given and n.func.value.id not in inner_binds)):
+            nm = alias.get(n.func.value.id, n.func.value.id)
+            out.append((n, nm, '%s (the object given as `%s`)' % (norm(n)[:70], nm)))
+        if isinstance(n, (ast.Assign, ast.AugAssign)):
+            for t in (n.targets if isinstance(n, ast.Assign) else [n.target]):
+                if isinstance(t, ast.Subscript) and isinstance(t.value, ast.Name) and (t.value.id in alias or (t.value.id in given and t.value.id not in inner_binds)):
+                    nm = alias.get(t.value.id, t.value.id)
+                    out.append((n, nm, '%s (the object given as `%s`)' % (norm(n)[:70], nm)))
     for n in ast.walk(inner_node):
         if isinstance(n, ast.Nonlocal):
             for nm in n.names:
